@@ -517,7 +517,7 @@ impl BDF {
             // Callback
             if let Some(sol) = solout.as_mut() {
                 let interpolant = StepInterpolant::new(&cont, x_start, h_signed, Self::interpolate);
-                match sol.solout(x - h_signed, &mut x, &mut y, Some(&interpolant)) {
+                match sol.solout(x_start, &mut x, &mut y, Some(&interpolant)) {
                     ControlFlag::Continue => {}
                     ControlFlag::Interrupt => {
                         status = Status::UserInterrupt;
